@@ -1,5 +1,5 @@
 # C12 — a rule's result does not depend on unrelated rules compiled with it.
-import json, os
+import json, os, re
 from .. import core
 from ..core import gN, gbool, glist, gbytes, gopt, gpair
 from ..runner import Prop
@@ -64,10 +64,14 @@ class C12(Prop):
     RULE = ("rule sets A (1-3 rules, 1-3 text strings each, conditions over counts / offsets / of-expressions) and B "
             "generated to collide with A on atoms: the same strings, the same text under other modifiers, case "
             "variants, prefixes / suffixes, the same atom at another literal offset, an encoding of an A string as "
-            "a plain string, xor ranges; B in the same or another namespace, never global, never "
+            "a plain string, xor ranges; strings of A and B may be `private` (1/5) or xor; rules of B may be "
+            "`private rule`s with strings (1/3); B in the same or another namespace, never global, never "
             "referenced; every order-preserving interleaving when |A|+|B| <= 4, sampled otherwise. The union is "
-            "scanned and compared (verdicts and full match lists) with A alone and B alone; the union's match "
-            "lists are compared with the model's shared-automaton scan and with each string's single-string scan. "
+            "scanned and compared with A alone and B alone rule by rule and field by field (verdict, reported string "
+            "NAMES, private-string filtering, has_xor_modifier, full match lists); the reported strings of every rule "
+            "are also compared in Coq with the model's report (shared automaton, match vectors consumed "
+            "positionally, private and empty strings dropped) and with the report built from each string's "
+            "single-string scan. "
             "Non-trivial: some string of B shares a lower-cased atom or a literal with a string of A and the input "
             "has a match; distinct by (A, B, interleaving, input).")
     TRUSTED = ["Coq 8.16.1 kernel + vm_compute", "harness/src/scan.rs", "vlib/props/c12.py, c01.py (case printer)",
@@ -102,13 +106,19 @@ class C12(Prop):
                         if d["xor"] is not None and d["xor"][1] - d["xor"][0] > 6:
                             d["xor"][1] = d["xor"][0] + rng.range(0, 6)
                     d = dict(d)
+                    d["private"] = rng.chance(1, 5)      # private string: matched, never reported
+                    if d["xor"] is None and rng.chance(1, 6):
+                        lo = rng.below(250)
+                        d["xor"] = [lo, lo + rng.range(0, 3)]
+                        d["nocase"] = False
+                        d["b64"] = None
                     if d["xor"] is not None and d["xor"][1] - d["xor"][0] > 6:
                         d["xor"] = [d["xor"][0], d["xor"][0] + rng.range(0, 6)]
                     if len(d["text"]) > 32:
                         d["text"] = d["text"][:32]
                     decls.append(d)
                 rules.append({"name": "%s%d" % (prefix, i), "decls": decls, "cond": rng.choice(CONDS),
-                              "private": False})
+                              "private": prefix == "b" and rng.chance(1, 3)})      # private RULE
             return rules
         nsA = rng.choice([None, "nsA"])
         nsB = rng.choice([nsA, "nsB", None])
@@ -167,6 +177,10 @@ class C12(Prop):
         for c in cases:
             ctx.count("rules=%d+%d" % (len(c["A"]), len(c["B"])))
             ctx.count("ns=%s" % ("same" if c["nsA"] == c["nsB"] else "different"))
+            ctx.count("private_rules_in_B=%d" % sum(1 for r in c["B"] if r.get("private")))
+            ctx.count("private_strings=%d" % sum(1 for r in c["A"] + c["B"] for d in r["decls"] if d.get("private")))
+            ctx.count("xor_strings=%d" % sum(1 for r in c["A"] + c["B"] for d in r["decls"] if d["xor"] is not None))
+            ctx.count("first=%s" % c["order"][0][0])
         return [{"union": u, "A": a, "B": b} for u, a, b in zip(ou, oa, ob)]
 
     def term(self, ctx, case, out):
@@ -177,6 +191,7 @@ class C12(Prop):
         def key(r):
             return (r["ns"], r["name"])
         ru = {key(r): r for r in u["rules"]}
+        # union vs alone: the whole reported rule (verdict, string names, xor flags, match lists)
         same = True
         for alone in (a, b):
             for r in alone["rules"]:
@@ -184,23 +199,30 @@ class C12(Prop):
                     same = False
         if len(ru) != len(a["rules"]) + len(b["rules"]):
             same = False
-        # variables of the union in variable order = rules in the order added (none is global)
-        decls, outs = [], []
+        rules, reported = [], []
         for side, i in case["order"]:
             r = case[side][i]
             ns = (case["nsA"] if side == "A" else case["nsB"]) or "default"
-            for j, d in enumerate(r["decls"]):
-                decls.append(g_decl(d))
-                ms = []
-                ur = ru.get((ns, r["name"]))
+            sds = glist("{| sd_name := %d; sd_private := %s; sd_decl := %s |}" % (
+                j, gbool(bool(d.get("private"))), g_decl(d)) for j, d in enumerate(r["decls"]))
+            rules.append("(%s, %s)" % (gbool(not r.get("private")), sds))
+            ur = ru.get((ns, r["name"]))
+            if r.get("private"):
                 if ur is not None:
-                    for s in ur["strings"]:
-                        if s["name"] == "s%d" % j:
-                            ms = s["matches"]
-                outs.append(glist(g_smatch(x) for x in ms))
+                    same = False        # a private rule must not be reported
+                continue
+            strs = []
+            if ur is None:
+                same = False
+            else:
+                for st in ur["strings"]:
+                    mm = re.fullmatch(r"s(\d+)", st["name"])
+                    strs.append("(%d, %s, %s)" % (int(mm.group(1)) if mm else 999, gbool(bool(st["xor"])),
+                                                  glist(g_smatch(x) for x in st["matches"])))
+            reported.append(glist(strs))
         ctx.count("same_alone=%s" % same)
         return "C12_case %s %s %s %s %s" % (g_prm(case.get("params", {})), gbytes(bytes.fromhex(case["mem"])),
-                                            glist(decls), glist(outs), gbool(same))
+                                            glist(rules), glist(reported), gbool(same))
 
     def nontrivial(self, case, out):
         try:
